@@ -23,6 +23,53 @@ fn retarget(lines: &[String], from: usize, to: usize) -> Vec<String> {
     lines.iter().filter(|l| l.starts_with(&pat)).map(|l| l.replacen(&pat, &rep, 1)).collect()
 }
 
+/// `mk` lines that build, in slot `dst` (helper slot `dst + 1`), a *different* value of the same type as the one in
+/// slot `s` (a shorter sequence) — the destination of a `clone_from`
+fn shorter_twin(lines: &[String], s: usize, dst: usize, drop_one: bool) -> Option<Vec<String>> {
+    let find_mk = |k: usize| lines.iter().rev().find(|l| l.starts_with(&format!("mk {} ", k))).cloned();
+    let mk = find_mk(s)?;
+    let t: Vec<&str> = mk.split(' ').filter(|x| !x.is_empty()).collect();
+    if t.len() < 3 {
+        return None;
+    }
+    let kindfull = t[2];
+    let kind = kindfull.split(':').next().unwrap_or("");
+    let variant = kindfull.split(':').nth(1).unwrap_or("");
+    let args = &t[3..];
+    let cut = |v: &[&str]| -> Vec<String> {
+        let keep = if drop_one { v.len().saturating_sub(1) } else { v.len() - v.len() / 3 - if v.is_empty() { 0 } else { 1 } };
+        v[..keep].iter().map(|x| x.to_string()).collect()
+    };
+    let bv_twin = |mkbv: &str, slot: usize| -> Option<String> {
+        let t: Vec<&str> = mkbv.split(' ').filter(|x| !x.is_empty()).collect();
+        if t.len() < 4 || !t[2].starts_with("bvbits") {
+            return None;
+        }
+        let len: usize = t[3].parse().ok()?;
+        let nl = if drop_one { len.saturating_sub(1) } else { len - len / 3 };
+        let ps: Vec<&str> = t[4..].iter().copied().filter(|p| p.parse::<usize>().map(|x| x < nl).unwrap_or(false)).collect();
+        Some(format!("mk {} {} {} {}", slot, t[2], nl, ps.join(" ")).trim_end().to_string())
+    };
+    match kind {
+        "qwt" | "hqwt" | "wt" | "hwt" if variant != "rle" && variant != "default" => {
+            Some(vec![format!("mk {} {} {}", dst, kindfull, cut(args).join(" ")).trim_end().to_string()])
+        }
+        "qv" => Some(vec![format!("mk {} {} {}", dst, kindfull, cut(args).join(" ")).trim_end().to_string()]),
+        "rsq" if !args.is_empty() => Some(vec![format!("mk {} {} {} {}", dst, kindfull, args[0], cut(&args[1..]).join(" ")).trim_end().to_string()]),
+        "bvbits" => bv_twin(&mk, dst).map(|l| vec![l]),
+        "bvpos" if !args.is_empty() => Some(vec![format!("mk {} {} {}", dst, kindfull, cut(args).join(" ")).trim_end().to_string()]),
+        "rsn" | "rsw" if args.len() == 1 => {
+            let src = find_mk(args[0].parse().ok()?)?;
+            Some(vec![bv_twin(&src, dst + 1)?, format!("mk {} {} {}", dst, kindfull, dst + 1)])
+        }
+        "da" if args.len() == 2 => {
+            let src = find_mk(args[1].parse().ok()?)?;
+            Some(vec![bv_twin(&src, dst + 1)?, format!("mk {} {} {} {}", dst, kindfull, args[0], dst + 1)])
+        }
+        _ => None,
+    }
+}
+
 /// "every reachable state": in every `every`-th case the queried value is also cloned or sent through
 /// bincode, and (a sample of) the same queries is repeated on the copy
 fn reached_variants(r: &mut Rng, every: usize, out: &mut [Case]) {
@@ -56,7 +103,20 @@ fn reached_variants(r: &mut Rng, every: usize, out: &mut [Case]) {
             let off = r.below(step as u64) as usize;
             qs = qs.into_iter().skip(off).step_by(step).collect();
         }
-        let serde = r.chance(2, 3);
+        // a clone, a bincode round trip, or `clone_from` into an existing different value of the same type
+        let how = r.below(4);
+        if how == 3 {
+            if let Some(twin) = shorter_twin(&c.lines, s, 9, r.chance(1, 2)) {
+                c.lines.extend(twin);
+                c.l(format!("cf 9 {}", s));
+                c.l(format!("eq 9 {}", s));
+                c.l("dump 9");
+                c.tag("via=clone_from");
+                c.lines.extend(qs);
+                continue;
+            }
+        }
+        let serde = how < 2;
         c.l(format!("mk 9 {} {}", if serde { "serde" } else { "copy" }, s));
         c.tag(if serde { "via=serde" } else { "via=clone" });
         c.lines.extend(qs);
@@ -773,6 +833,38 @@ fn bvm_history_cases(r: &mut Rng, t: Tier, n_cases: usize, out: &mut Vec<Case>) 
         c.l("eq 0 0");
         c.l("mk 2 copy:thaw 1");
         c.l("eq 0 2");
+        // position iterators driven through histories (nth / count / last / min / max / fold / for_each / …)
+        for slot in [0usize, 1] {
+            for p in [0usize, len / 2, len.saturating_sub(r.range(1, 70) as usize), len.saturating_sub(1)] {
+                let hl = r.range(0, 12) as usize;
+                c.l(format!("q {} ones_hist {} {}", slot, p, iter_history(r, hl, false)));
+                let hl = r.range(0, 12) as usize;
+                c.l(format!("q {} zeros_hist {} {}", slot, p, iter_history(r, hl, false)));
+            }
+        }
+        // `clone_from` into existing vectors: one bit shorter (mostly the same number of lines), the first bit
+        // of the last line, longer, empty — the destination must become indistinguishable from the source
+        for (slot, dl) in [(5usize, len.saturating_sub(1)), (6, (len / 512) * 512 + 1), (7, len + 700), (8, 0)] {
+            let ones: Vec<usize> = (0..dl).filter(|_| r.chance(1, 3)).collect();
+            c.l(format!("mk {} bvbits:mut {} {}", slot, dl, join(&ones)).trim_end().to_string());
+            c.l(format!("cf {} 0", slot));
+            c.l(format!("eq {} 0", slot));
+            for q in ["len", "count_ones", "count_zeros", "zeros", "iter"] {
+                c.l(format!("q {} {}", slot, q));
+            }
+            c.l(format!("q {} get {}", slot, len.saturating_sub(1)));
+            c.l(format!("q {} get {}", slot, len));
+            c.l(format!("op {} push 1", slot));
+            c.l(format!("q {} len", slot));
+            c.l(format!("q {} count_ones", slot));
+            c.l(format!("dump {}", slot));
+        }
+        c.l(format!("mk 10 bvbits {} {}", len.saturating_sub(1), join(&(0..len.saturating_sub(1)).filter(|_| r.chance(1, 2)).collect::<Vec<_>>())).trim_end().to_string());
+        c.l("cf 10 1");
+        c.l("eq 10 1");
+        c.l("q 10 len");
+        c.l("q 10 count_zeros");
+        c.l("dump 10");
         out.push(c);
     }
 }
@@ -783,7 +875,7 @@ fn bvm_history_cases(r: &mut Rng, t: Tier, n_cases: usize, out: &mut Vec<Case>) 
 /// single steps and the observers), for sequences of a few dozen elements
 pub fn meeting_history(r: &mut Rng, hl: usize) -> String {
     let style = r.below(3);
-    let term = if r.chance(1, 3) { Some(*r.pick(&['#', '$', '%', '^'])) } else { None };
+    let term = if r.chance(1, 3) { Some(*r.pick(&['#', '$', '%', '^', 'm', 'M', 'e', 'r'])) } else { None };
     let core: String = (0..hl)
         .map(|j| {
             let back_phase = style == 1 && j < hl / 2 || style == 2 && j % 2 == 0;
@@ -835,7 +927,7 @@ pub fn iter_history(r: &mut Rng, hl: usize, double_ended: bool) -> String {
     let mut h = iter_history_core(r, hl, double_ended);
     // every third history ends in a call that consumes the iterator itself: count / last / fold / rev().fold
     if r.chance(1, 3) {
-        h.push(*r.pick(if double_ended { &['#', '$', '%', '^'][..] } else { &['#', '$', '%'][..] }));
+        h.push(*r.pick(if double_ended { &['#', '$', '%', '^', 'm', 'M', 'e', 'r'][..] } else { &['#', '$', '%', 'm', 'M', 'e', 'r'][..] }));
     }
     h
 }
